@@ -9,7 +9,10 @@
 
     so a semantic change of a translated Go function breaks the lemma of that function (or of a
     caller) on that run, for ALL inputs, independently of what the sampled correspondence run
-    happens to hit. No axioms, nothing admitted.
+    happens to hit. Nothing admitted; no axioms in the integer/bit/byte groups (can, descriptor,
+    wire, netlink, scan); the floating-point groups (physical, apidecide) are on Flocq and depend
+    on the standard-library axioms its lemmas use, and on nothing else (checked by
+    checks/translate_tie.py against vlib.AXIOM_WHITELIST).
 
     Layout: the text up to the first group marker is the common header; each group
     (marker line: open-comment, "@group <name> [requires <names>]", close-comment) is
@@ -296,11 +299,20 @@ Qed.
 (** ** pkg/descriptor/signal.go, integer part  (models: Descriptor/Signal.v) *)
 From CanVerif Require Import Descriptor.Signal.
 
-(** the Go struct as the translator sees it (only the fields the translated methods read) *)
+(** the Go struct as the translator sees it.  The generated record has exactly the fields that the
+    translated functions of the SELECTED groups use, so it is built with the generated setters from
+    the generated zero value: this definition type-checks whatever other fields there are (they
+    stay zero here; the groups that read them set them on top of [sig_of]). *)
 Definition sig_of (s : signal) : Translated.Signal :=
-  {| Translated.Signal_Start := s_start s;
-     Translated.Signal_Length := s_length s;
-     Translated.Signal_IsBigEndian := s_big_endian s |}.
+  Translated.set_Signal_IsBigEndian
+    (Translated.set_Signal_Length
+       (Translated.set_Signal_Start Translated.zero_Signal (s_start s)) (s_length s))
+    (s_big_endian s).
+
+Lemma sig_of_start s : Translated.Signal_Start (sig_of s) = s_start s. Proof. reflexivity. Qed.
+Lemma sig_of_length s : Translated.Signal_Length (sig_of s) = s_length s. Proof. reflexivity. Qed.
+Lemma sig_of_be s : Translated.Signal_IsBigEndian (sig_of s) = s_big_endian s. Proof. reflexivity. Qed.
+Ltac sigproj := rewrite ?sig_of_start, ?sig_of_length, ?sig_of_be.
 
 Lemma T_Signal_MaxUnsigned_eq s : Translated.Signal_MaxUnsigned (sig_of s) = max_unsigned s.
 Proof. reflexivity. Qed.
@@ -328,7 +340,7 @@ Qed.
 Lemma T_Signal_UnmarshalUnsigned_eq s d :
   valid_data d -> Translated.Signal_UnmarshalUnsigned (sig_of s) d = unmarshal_unsigned s d.
 Proof.
-  intros Hd. unfold Translated.Signal_UnmarshalUnsigned, unmarshal_unsigned. cbn [sig_of Translated.Signal_IsBigEndian Translated.Signal_Start Translated.Signal_Length].
+  intros Hd. unfold Translated.Signal_UnmarshalUnsigned, unmarshal_unsigned. sigproj.
   destruct (s_big_endian s).
   - rewrite T_Data_UnsignedBitsBigEndian_eq by assumption. reflexivity.
   - rewrite T_Data_UnsignedBitsLittleEndian_eq by assumption. reflexivity.
@@ -338,7 +350,7 @@ Lemma T_Signal_UnmarshalSigned_eq s d :
   valid_data d -> in_u 8 (s_start s) ->
   Translated.Signal_UnmarshalSigned (sig_of s) d = unmarshal_signed s d.
 Proof.
-  intros Hd Hs. unfold Translated.Signal_UnmarshalSigned, unmarshal_signed. cbn [sig_of Translated.Signal_IsBigEndian Translated.Signal_Start Translated.Signal_Length].
+  intros Hd Hs. unfold Translated.Signal_UnmarshalSigned, unmarshal_signed. sigproj.
   destruct (s_big_endian s).
   - rewrite T_Data_SignedBitsBigEndian_eq by assumption. reflexivity.
   - rewrite T_Data_SignedBitsLittleEndian_eq by assumption. reflexivity.
@@ -350,7 +362,7 @@ Proof. unfold Translated.Signal_UnmarshalBool, unmarshal_bool. rewrite T_Data_Bi
 Lemma T_Signal_MarshalUnsigned_eq s d value :
   valid_data d -> Translated.Signal_MarshalUnsigned (sig_of s) d value = marshal_unsigned s d value.
 Proof.
-  intros Hd. unfold Translated.Signal_MarshalUnsigned, marshal_unsigned. cbv zeta. cbn [sig_of Translated.Signal_IsBigEndian Translated.Signal_Start Translated.Signal_Length].
+  intros Hd. unfold Translated.Signal_MarshalUnsigned, marshal_unsigned. cbv zeta. sigproj.
   destruct (s_big_endian s).
   - rewrite T_Data_SetUnsignedBitsBigEndian_eq by assumption. reflexivity.
   - rewrite T_Data_SetUnsignedBitsLittleEndian_eq by assumption. reflexivity.
@@ -359,7 +371,7 @@ Qed.
 Lemma T_Signal_MarshalSigned_eq s d value :
   valid_data d -> Translated.Signal_MarshalSigned (sig_of s) d value = marshal_signed s d value.
 Proof.
-  intros Hd. unfold Translated.Signal_MarshalSigned, marshal_signed. cbv zeta. cbn [sig_of Translated.Signal_IsBigEndian Translated.Signal_Start Translated.Signal_Length].
+  intros Hd. unfold Translated.Signal_MarshalSigned, marshal_signed. cbv zeta. sigproj.
   destruct (s_big_endian s).
   - rewrite T_Data_SetSignedBitsBigEndian_eq by assumption. reflexivity.
   - rewrite T_Data_SetSignedBitsLittleEndian_eq by assumption. reflexivity.
@@ -414,3 +426,506 @@ Qed.
 
 Lemma T_frame_decodeFrame_eq f : Translated.frame_decodeFrame (sc_of f) = fr_of (Wire.decode_frame f).
 Proof. reflexivity. Qed.
+
+(* @group physical requires can descriptor *)
+(** ** pkg/descriptor/signal.go, floating-point part  (models: Descriptor/Physical.v; semantics of
+       the float operators: Translate/GoSemFloat.v).  The T_ lemmas of this group depend on the
+       standard-library axioms that Flocq's lemmas use (real numbers, classic, functional
+       extensionality); checks/translate_tie.py accepts exactly vlib.AXIOM_WHITELIST. *)
+From Flocq Require Import Core BinarySingleNaN.
+From CanVerif Require Import Translate.GoSemFloat Translate.GoSemFloatProofs Descriptor.Physical.
+
+(** [sig_of] plus the fields the float part reads; the float64 fields of the hand model's record
+    are bit patterns, decoded by [sc]/[off]/[smin]/[smax] *)
+Definition sig_of_p (s : signal) : Translated.Signal :=
+  Translated.set_Signal_Max
+    (Translated.set_Signal_Min
+       (Translated.set_Signal_Scale
+          (Translated.set_Signal_Offset
+             (Translated.set_Signal_IsSigned (sig_of s) (s_signed s)) (off s)) (sc s)) (smin s)) (smax s).
+
+Lemma sig_of_p_start s : Translated.Signal_Start (sig_of_p s) = s_start s. Proof. reflexivity. Qed.
+Lemma sig_of_p_length s : Translated.Signal_Length (sig_of_p s) = s_length s. Proof. reflexivity. Qed.
+Lemma sig_of_p_be s : Translated.Signal_IsBigEndian (sig_of_p s) = s_big_endian s. Proof. reflexivity. Qed.
+Lemma sig_of_p_signed s : Translated.Signal_IsSigned (sig_of_p s) = s_signed s. Proof. reflexivity. Qed.
+Lemma sig_of_p_offset s : Translated.Signal_Offset (sig_of_p s) = off s. Proof. reflexivity. Qed.
+Lemma sig_of_p_scale s : Translated.Signal_Scale (sig_of_p s) = sc s. Proof. reflexivity. Qed.
+Lemma sig_of_p_min s : Translated.Signal_Min (sig_of_p s) = smin s. Proof. reflexivity. Qed.
+Lemma sig_of_p_max s : Translated.Signal_Max (sig_of_p s) = smax s. Proof. reflexivity. Qed.
+Ltac sigproj_p := rewrite ?sig_of_p_start, ?sig_of_p_length, ?sig_of_p_be, ?sig_of_p_signed,
+                          ?sig_of_p_offset, ?sig_of_p_scale, ?sig_of_p_min, ?sig_of_p_max.
+
+(** the integer methods read only Start/Length/IsBigEndian: on [sig_of_p s] they are what they are
+    on [sig_of s] (by computation), so the lemmas of group descriptor apply *)
+Lemma T_Signal_MinSigned_eq' s : Translated.Signal_MinSigned (sig_of_p s) = min_signed_l (s_length s).
+Proof. exact (T_Signal_MinSigned_eq s). Qed.
+Lemma T_Signal_MaxSigned_eq' s : Translated.Signal_MaxSigned (sig_of_p s) = max_signed_l (s_length s).
+Proof. exact (T_Signal_MaxSigned_eq s). Qed.
+Lemma T_Signal_MaxUnsigned_eq' s : Translated.Signal_MaxUnsigned (sig_of_p s) = max_unsigned_l (s_length s).
+Proof. exact (T_Signal_MaxUnsigned_eq s). Qed.
+
+(** the operators of GoSemFloat.v and of Descriptor/Physical.v are the same Flocq terms; they are
+    identified by REWRITING with these equations (a [change] would leave a conversion problem on
+    Flocq terms to the kernel at [Qed]) *)
+Lemma go_fmax_eq : go_math_Max = fmax. Proof. reflexivity. Qed.
+Lemma go_fmin_eq : go_math_Min = fmin. Proof. reflexivity. Qed.
+Lemma go_fadd_eq : go_fadd64 = fadd. Proof. reflexivity. Qed.
+Lemma go_fsub_eq : go_fsub64 = fsub. Proof. reflexivity. Qed.
+Lemma go_fmul_eq : go_fmul64 = fmul. Proof. reflexivity. Qed.
+Lemma go_fdiv_eq : go_fdiv64 = fdiv. Proof. reflexivity. Qed.
+Lemma go_feq_eq : go_feq64 = @Beqb 53 1024. Proof. reflexivity. Qed.
+Lemma go_flt_eq : go_flt64 = @Bltb 53 1024. Proof. reflexivity. Qed.
+Lemma go_fle_eq : go_fle64 = @Bleb 53 1024. Proof. reflexivity. Qed.
+Lemma go_f64_of_int_eq : go_f64_of_int = f64_of_Z. Proof. reflexivity. Qed.
+Lemma go_f64_const_eq : go_f64_const = f64_of_bits. Proof. reflexivity. Qed.
+Lemma go_f32_of_f64_eq : go_f32_of_f64 = f32_of_f64. Proof. reflexivity. Qed.
+Lemma go_f64_of_f32_eq : go_f64_of_f32 = f64_of_f32. Proof. reflexivity. Qed.
+Lemma go_f32frombits_eq : go_math_Float32frombits = f32_of_bits. Proof. reflexivity. Qed.
+Lemma go_f32bits_eq : go_math_Float32bits = bits_of_f32. Proof. reflexivity. Qed.
+Lemma fzero_bits : f64_of_bits 0 = fzero. Proof. reflexivity. Qed.
+Lemma fone_bits : f64_of_bits 0x3ff0000000000000 = fone.
+Proof. unfold fone. rewrite <- go_f64_const_eq, <- go_f64_of_int_eq. exact go_f64_const_one. Qed.
+Ltac fnorm :=
+  rewrite ?go_fmax_eq, ?go_fmin_eq, ?go_fadd_eq, ?go_fsub_eq, ?go_fmul_eq, ?go_fdiv_eq, ?go_feq_eq, ?go_flt_eq,
+    ?go_fle_eq, ?go_f64_of_int_eq, ?go_f64_const_eq, ?go_f32_of_f64_eq, ?go_f64_of_f32_eq, ?go_f32frombits_eq,
+    ?go_f32bits_eq, ?fzero_bits, ?fone_bits.
+
+Lemma T_Signal_MinFloat_eq s : Translated.Signal_MinFloat (sig_of_p s) = min_float.
+Proof. unfold Translated.Signal_MinFloat, min_float. fnorm. reflexivity. Qed.
+
+Lemma T_Signal_MaxFloat_eq s : Translated.Signal_MaxFloat (sig_of_p s) = max_float.
+Proof. unfold Translated.Signal_MaxFloat, max_float. fnorm. reflexivity. Qed.
+
+Lemma T_Signal_SaturatedCastFloat_eq s value :
+  Translated.Signal_SaturatedCastFloat (sig_of_p s) value = saturated_cast_float value.
+Proof.
+  unfold Translated.Signal_SaturatedCastFloat, saturated_cast_float. cbv zeta.
+  rewrite T_Signal_MinFloat_eq, T_Signal_MaxFloat_eq. fnorm. reflexivity.
+Qed.
+
+Lemma T_Signal_ToPhysical_eq s value :
+  Translated.Signal_ToPhysical (sig_of_p s) value = to_physical s value.
+Proof.
+  unfold Translated.Signal_ToPhysical, to_physical, to_physical_f, clamp_opt_f, declared_f, clamp_f, fne0.
+  cbv zeta. sigproj_p. fnorm. reflexivity.
+Qed.
+
+Lemma T_Signal_FromPhysical_eq s physical :
+  Translated.Signal_FromPhysical (sig_of_p s) physical = from_physical s physical.
+Proof.
+  unfold Translated.Signal_FromPhysical, from_physical, from_physical_f, clamp_opt_f, declared_f, clamp_f,
+    raw_lo_f, raw_hi_f, fne0.
+  cbv zeta. sigproj_p. rewrite T_Signal_MinSigned_eq', T_Signal_MaxSigned_eq', T_Signal_MaxUnsigned_eq'.
+  fnorm. destruct (_ || _), (s_signed s); reflexivity.
+Qed.
+
+Lemma T_Signal_UnmarshalPhysical_eq s d :
+  valid_data d -> in_u 8 (s_start s) ->
+  Translated.Signal_UnmarshalPhysical (sig_of_p s) d = unmarshal_physical s d.
+Proof.
+  intros Hd Hs. unfold Translated.Signal_UnmarshalPhysical, unmarshal_physical, unmarshal_signed, unmarshal_unsigned.
+  cbv zeta. sigproj_p. rewrite T_Data_Bit_eq.
+  rewrite !T_Data_SignedBitsBigEndian_eq, !T_Data_SignedBitsLittleEndian_eq,
+    !T_Data_UnsignedBitsBigEndian_eq, !T_Data_UnsignedBitsLittleEndian_eq by assumption.
+  rewrite !T_Signal_ToPhysical_eq. fnorm.
+  destruct (s_length s =? 1); [destruct (bit d (s_start s)); reflexivity |].
+  destruct (s_signed s), (s_big_endian s); reflexivity.
+Qed.
+
+Lemma T_Signal_UnmarshalFloat_eq s d :
+  valid_data d -> Translated.Signal_UnmarshalFloat (sig_of_p s) d = unmarshal_float s d.
+Proof.
+  intros Hd. unfold Translated.Signal_UnmarshalFloat, unmarshal_float, unmarshal_unsigned, go_unsafe_low.
+  cbv zeta. sigproj_p.
+  rewrite !T_Data_UnsignedBitsBigEndian_eq, !T_Data_UnsignedBitsLittleEndian_eq by assumption.
+  fnorm. destruct (s_big_endian s); reflexivity.
+Qed.
+
+(** MarshalUnsigned reads Start/Length/IsBigEndian only *)
+Lemma T_Signal_MarshalUnsigned_eq' s d value :
+  valid_data d -> Translated.Signal_MarshalUnsigned (sig_of_p s) d value = marshal_unsigned s d value.
+Proof. exact (T_Signal_MarshalUnsigned_eq s d value). Qed.
+
+Lemma T_Signal_MarshalFloat_eq s d value :
+  valid_data d -> Translated.Signal_MarshalFloat (sig_of_p s) d value = marshal_float s d value.
+Proof.
+  intros Hd. unfold Translated.Signal_MarshalFloat, marshal_float. cbv zeta.
+  rewrite T_Signal_MarshalUnsigned_eq' by assumption.
+  rewrite (wrap_u_small 64) by (eapply in_u_mono; [| apply go_math_Float32bits_range]; lia).
+  fnorm. reflexivity.
+Qed.
+
+(* @group apidecide requires can descriptor physical *)
+(** ** internal/generate/file.go: the decisions of the generator  (models: Gen/Api.v, Gen/Message.v).
+       Gen/Api.v is Flocq-free: it compares float64 BIT PATTERNS ([f64_eqb], [f64_ltb]) and converts
+       integers with its own [f64_of_int]; Translate/FloatBits.v proves the pattern comparisons equal
+       to Flocq's on the decoded floats, and the conversions are checked here for the 256 possible
+       values of the uint8 shift count [Length - 1]. *)
+From CanVerif Require Import Translate.FloatBits Gen.Message Gen.Api.
+
+Definition sig_of_a (s : signal) : Translated.Signal :=
+  Translated.set_Signal_ValueDescriptions
+    (Translated.set_Signal_IsFloat (sig_of_p s) (s_float s))
+    (Z.of_nat (length (s_value_descriptions s))).
+
+Lemma sig_of_a_length s : Translated.Signal_Length (sig_of_a s) = s_length s. Proof. reflexivity. Qed.
+Lemma sig_of_a_signed s : Translated.Signal_IsSigned (sig_of_a s) = s_signed s. Proof. reflexivity. Qed.
+Lemma sig_of_a_float s : Translated.Signal_IsFloat (sig_of_a s) = s_float s. Proof. reflexivity. Qed.
+Lemma sig_of_a_vds s :
+  Translated.Signal_ValueDescriptions (sig_of_a s) = Z.of_nat (length (s_value_descriptions s)).
+Proof. reflexivity. Qed.
+Lemma sig_of_a_offset s : Translated.Signal_Offset (sig_of_a s) = go_math_Float64frombits (s_offset s). Proof. reflexivity. Qed.
+Lemma sig_of_a_scale s : Translated.Signal_Scale (sig_of_a s) = go_math_Float64frombits (s_scale s). Proof. reflexivity. Qed.
+Lemma sig_of_a_min s : Translated.Signal_Min (sig_of_a s) = go_math_Float64frombits (s_min s). Proof. reflexivity. Qed.
+Lemma sig_of_a_max s : Translated.Signal_Max (sig_of_a s) = go_math_Float64frombits (s_max s). Proof. reflexivity. Qed.
+Ltac sigproj_a := rewrite ?sig_of_a_length, ?sig_of_a_signed, ?sig_of_a_float, ?sig_of_a_vds,
+                          ?sig_of_a_offset, ?sig_of_a_scale, ?sig_of_a_min, ?sig_of_a_max.
+
+(** callees, on [sig_of_a] (they read only fields that [sig_of_p]/[sig_of] set) *)
+Lemma T_Signal_MinSigned_eq'' s : Translated.Signal_MinSigned (sig_of_a s) = min_signed s.
+Proof. exact (T_Signal_MinSigned_eq s). Qed.
+Lemma T_Signal_MaxSigned_eq'' s : Translated.Signal_MaxSigned (sig_of_a s) = max_signed s.
+Proof. exact (T_Signal_MaxSigned_eq s). Qed.
+Lemma T_Signal_MaxUnsigned_eq'' s : Translated.Signal_MaxUnsigned (sig_of_a s) = max_unsigned s.
+Proof. exact (T_Signal_MaxUnsigned_eq s). Qed.
+Lemma T_Signal_MinFloat_eq' s : Translated.Signal_MinFloat (sig_of_a s) = go_math_Float64frombits f64_min_float32.
+Proof. reflexivity. Qed.
+Lemma T_Signal_MaxFloat_eq' s : Translated.Signal_MaxFloat (sig_of_a s) = go_math_Float64frombits f64_max_float32.
+Proof. reflexivity. Qed.
+
+(** float64(MinSigned()), float64(MaxSigned()), float64(MaxUnsigned()): the bit-pattern conversion
+    of Gen/Api.v gives the pattern of the correctly rounded Flocq conversion, for every value the
+    uint8 shift count can take *)
+Definition conv_ok (z : Z) : bool :=
+  (go_math_Float64bits (go_f64_of_int z) =? f64_of_int z) && (0 <=? f64_of_int z) && (f64_of_int z <? 2 ^ 64).
+Definition conv_ok_k (k : Z) : bool :=
+  conv_ok (wrap_i64 (- shl_i64 1 k)) && conv_ok (wrap_i64 (shl_i64 1 k - 1)) && conv_ok (sub64 (shl64 2 k) 1).
+Lemma conv_ok_all : forallb conv_ok_k (map Z.of_nat (seq 0 256)) = true.
+Proof. vm_compute. reflexivity. Qed.
+Lemma conv_ok_len l : conv_ok_k (len_m1 l) = true.
+Proof.
+  assert (H : 0 <= len_m1 l < 256) by (unfold len_m1, u8; apply Z.mod_pos_bound; lia).
+  pose proof conv_ok_all as A. rewrite forallb_forall in A. apply A.
+  apply in_map_iff. exists (Z.to_nat (len_m1 l)). split; [lia | apply in_seq; lia].
+Qed.
+Lemma conv_ok_use z : conv_ok z = true ->
+  go_f64_of_int z = go_math_Float64frombits (f64_of_int z) /\ in_u 64 (f64_of_int z).
+Proof.
+  unfold conv_ok. intros H. apply andb_true_iff in H. destruct H as [H C]. apply andb_true_iff in H.
+  destruct H as [A B]. apply Z.eqb_eq in A. apply Z.leb_le in B. apply Z.ltb_lt in C.
+  split; [rewrite <- A; symmetry; apply go_frombits_bits64 | unfold in_u; lia].
+Qed.
+Lemma conv_min_signed s : go_f64_of_int (min_signed s) = go_math_Float64frombits (f64_of_int (min_signed s))
+                          /\ in_u 64 (f64_of_int (min_signed s)).
+Proof.
+  apply conv_ok_use. pose proof (conv_ok_len (s_length s)) as H. unfold conv_ok_k in H.
+  apply andb_true_iff in H. destruct H as [H _]. apply andb_true_iff in H. exact (proj1 H).
+Qed.
+Lemma conv_max_signed s : go_f64_of_int (max_signed s) = go_math_Float64frombits (f64_of_int (max_signed s))
+                          /\ in_u 64 (f64_of_int (max_signed s)).
+Proof.
+  apply conv_ok_use. pose proof (conv_ok_len (s_length s)) as H. unfold conv_ok_k in H.
+  apply andb_true_iff in H. destruct H as [H _]. apply andb_true_iff in H. exact (proj2 H).
+Qed.
+Lemma conv_max_unsigned s : go_f64_of_int (max_unsigned s) = go_math_Float64frombits (f64_of_int (max_unsigned s))
+                            /\ in_u 64 (f64_of_int (max_unsigned s)).
+Proof.
+  apply conv_ok_use. pose proof (conv_ok_len (s_length s)) as H. unfold conv_ok_k in H.
+  apply andb_true_iff in H. exact (proj2 H).
+Qed.
+
+(** the float64 fields of a descriptor are bit patterns of 64 bits *)
+Definition sig_bits_ok (s : signal) : Prop :=
+  in_u 64 (s_scale s) /\ in_u 64 (s_offset s) /\ in_u 64 (s_min s) /\ in_u 64 (s_max s).
+
+Lemma feq_bits a b : in_u 64 a -> in_u 64 b ->
+  go_feq64 (go_math_Float64frombits a) (go_math_Float64frombits b) = f64_eqb a b.
+Proof. intros Ha Hb. exact (bits_eqb_correct a b Ha Hb). Qed.
+Lemma flt_bits a b : in_u 64 a -> in_u 64 b ->
+  go_flt64 (go_math_Float64frombits a) (go_math_Float64frombits b) = f64_ltb a b.
+Proof. intros Ha Hb. exact (bits_ltb_correct a b Ha Hb). Qed.
+
+Lemma T_hasPhysicalRepresentation_eq s :
+  sig_bits_ok s -> Translated.hasPhysicalRepresentation (sig_of_a s) = has_physical s.
+Proof.
+  intros (Hsc & Hof & Hmn & Hmx).
+  destruct (conv_min_signed s) as [Emin Rmin]. destruct (conv_max_signed s) as [Emax Rmax].
+  destruct (conv_max_unsigned s) as [Eumax Rumax].
+  assert (R0 : in_u 64 0) by (unfold in_u; lia).
+  assert (R1 : in_u 64 f64_one) by (apply in_u_lit; reflexivity).
+  assert (Rmaxf : in_u 64 f64_max_float32) by (apply in_u_lit; reflexivity).
+  assert (Rminf : in_u 64 f64_min_float32) by (apply in_u_lit; reflexivity).
+  unfold Translated.hasPhysicalRepresentation, has_physical, has_physical_old. cbv zeta.
+  rewrite T_Signal_MinSigned_eq'', T_Signal_MaxSigned_eq'', T_Signal_MaxUnsigned_eq'',
+    T_Signal_MinFloat_eq', T_Signal_MaxFloat_eq'.
+  sigproj_a. rewrite Emin, Emax, Eumax. unfold go_f64_const.
+  change 0x3ff0000000000000 with f64_one.
+  rewrite !feq_bits, !flt_bits by assumption.
+  unfold f64_neb, f64_gtb, f64_zero.
+  destruct (s_float s), (s_signed s); reflexivity.
+Qed.
+
+Lemma T_hasCustomType_eq s : Translated.hasCustomType (sig_of_a s) = has_custom_type s.
+Proof.
+  unfold Translated.hasCustomType, has_custom_type. sigproj_a.
+  destruct (s_value_descriptions s); reflexivity.
+Qed.
+
+(** go/types.BasicKind of the model's type tags (go/types/type.go: Bool = 1, Int8..Int64 = 3..6,
+    Uint8..Uint64 = 8..11, Float32 = 13, Float64 = 14; the translator prints each constant with its
+    name, see Translated.v) *)
+Definition kind_of_int (bits : Z) : Z := if bits =? 8 then 3 else if bits =? 16 then 4 else if bits =? 32 then 5 else 6.
+Definition kind_of_uint (bits : Z) : Z := if bits =? 8 then 8 else if bits =? 16 then 9 else if bits =? 32 then 10 else 11.
+Definition kind_of_prim (p : prim_type) : Z :=
+  match p with PFloat32 => 13 | PBool => 1 | PInt b => kind_of_int b | PUint b => kind_of_uint b end.
+Definition kind_of_basic (b : basic) : Z :=
+  match b with BBool => 1 | BFloat32 => 13 | BFloat64 => 14 | BInt b => kind_of_int b | BUint b => kind_of_uint b end.
+
+Ltac split_ifs :=
+  repeat match goal with |- context [if ?c then _ else _] => destruct c end.
+
+Lemma T_signalPrimitiveType_eq s :
+  Translated.signalPrimitiveType (sig_of_a s) = kind_of_prim (signal_prim_type s).
+Proof.
+  unfold Translated.signalPrimitiveType, signal_prim_type, go_types_Typ. cbv zeta. sigproj_a.
+  split_ifs; reflexivity.
+Qed.
+
+Lemma T_signalPrimitiveSuperType_eq s :
+  Translated.signalPrimitiveSuperType (sig_of_a s) = kind_of_basic (signal_prim_super s).
+Proof.
+  unfold Translated.signalPrimitiveSuperType, signal_prim_super, go_types_Typ. cbv zeta. sigproj_a.
+  split_ifs; reflexivity.
+Qed.
+
+(** the suffix of descriptor.Signal's Marshal<S> / Unmarshal<S> / SaturatedCast<S> methods *)
+Definition super_name (st : super_type) : list Z :=
+  match st with
+  | StFloat => [70; 108; 111; 97; 116]                      (* "Float" *)
+  | StBool => [66; 111; 111; 108]                           (* "Bool" *)
+  | StSigned => [83; 105; 103; 110; 101; 100]               (* "Signed" *)
+  | StUnsigned => [85; 110; 115; 105; 103; 110; 101; 100]   (* "Unsigned" *)
+  end.
+
+Lemma T_signalSuperType_eq s :
+  Translated.signalSuperType (sig_of_a s) = super_name (signal_super_type s).
+Proof.
+  unfold Translated.signalSuperType, signal_super_type. sigproj_a. split_ifs; reflexivity.
+Qed.
+
+(* @group netlink *)
+(** ** pkg/candevice/device_linux.go: the fixed-layout codecs  (models: Netlink/Layout.v).
+       The hand models are CHECKED ([outcome]: [OutOfBounds] = the Go program would panic, [Error] =
+       it returns a non-nil error); the translated functions are total (GoSem.v: panics are not
+       modelled).  Each lemma therefore says: the model never answers [OutOfBounds], and the
+       translated function returns what the model returns. *)
+From CanVerif Require Netlink.Layout.
+
+(** (a module, so that the names of Netlink/Layout.v - [u8], [slice], [byte] ... - do not shadow those of
+    Can/Data.v in the groups that follow) *)
+Module NL.
+Import Netlink.Layout.
+
+Lemma bytes_len_eqb (d : go_bytes) (n : Z) : 0 <= n -> (bytes_len d =? n) = Nat.eqb (length d) (Z.to_nat n).
+Proof.
+  intros Hn. unfold bytes_len. destruct (Nat.eqb_spec (length d) (Z.to_nat n)) as [E | E].
+  - rewrite E, Z2Nat.id by exact Hn. apply Z.eqb_refl.
+  - apply Z.eqb_neq. lia.
+Qed.
+
+(** the checked readers of the model succeed whenever the slice is in range and has the exact width,
+    and then return what the (total) readers of GoSem.v return *)
+Lemma slice_tr d lo hi : (lo <= hi)%nat -> (hi <= length d)%nat ->
+  slice d lo hi = Ok (bytes_slice d (Z.of_nat lo) (Z.of_nat hi)).
+Proof.
+  intros H1 H2. unfold slice, bytes_slice. rewrite !Nat2Z.id.
+  destruct (Nat.leb_spec lo hi); [| lia]. destruct (Nat.leb_spec hi (length d)); [| lia]. reflexivity.
+Qed.
+Lemma bytes_slice_length d lo hi : (lo <= hi)%nat -> (hi <= length d)%nat ->
+  length (bytes_slice d (Z.of_nat lo) (Z.of_nat hi)) = (hi - lo)%nat.
+Proof.
+  intros H1 H2. unfold bytes_slice. rewrite !Nat2Z.id, firstn_length, skipn_length. lia.
+Qed.
+Lemma get_u8_tr d : length d = 1%nat -> get_u8 d = Ok (nlenc_Uint8 d).
+Proof. destruct d as [| ? [| ? ?]]; try discriminate. reflexivity. Qed.
+Lemma get_u16_tr d : length d = 2%nat -> get_u16 d = Ok (nlenc_Uint16 d).
+Proof. destruct d as [| ? [| ? [| ? ?]]]; try discriminate. reflexivity. Qed.
+Lemma get_u32_tr d : length d = 4%nat -> get_u32 d = Ok (nlenc_Uint32 d).
+Proof. destruct d as [| ? [| ? [| ? [| ? [| ? ?]]]]]; try discriminate. reflexivity. Qed.
+Lemma get_i32_tr d : length d = 4%nat -> get_i32 d = Ok (nlenc_Int32 d).
+Proof. intros H. unfold get_i32. rewrite get_u32_tr by exact H. reflexivity. Qed.
+Lemma rd_u8_tr d lo hi : (hi <= length d)%nat -> (lo + 1 = hi)%nat ->
+  rd_u8 d lo hi = Ok (nlenc_Uint8 (bytes_slice d (Z.of_nat lo) (Z.of_nat hi))).
+Proof. intros. unfold rd_u8. rewrite slice_tr by lia. cbn [bind]. apply get_u8_tr. rewrite bytes_slice_length; lia. Qed.
+Lemma rd_u16_tr d lo hi : (hi <= length d)%nat -> (lo + 2 = hi)%nat ->
+  rd_u16 d lo hi = Ok (nlenc_Uint16 (bytes_slice d (Z.of_nat lo) (Z.of_nat hi))).
+Proof. intros. unfold rd_u16. rewrite slice_tr by lia. cbn [bind]. apply get_u16_tr. rewrite bytes_slice_length; lia. Qed.
+Lemma rd_u32_tr d lo hi : (hi <= length d)%nat -> (lo + 4 = hi)%nat ->
+  rd_u32 d lo hi = Ok (nlenc_Uint32 (bytes_slice d (Z.of_nat lo) (Z.of_nat hi))).
+Proof. intros. unfold rd_u32. rewrite slice_tr by lia. cbn [bind]. apply get_u32_tr. rewrite bytes_slice_length; lia. Qed.
+Lemma rd_i32_tr d lo hi : (hi <= length d)%nat -> (lo + 4 = hi)%nat ->
+  rd_i32 d lo hi = Ok (nlenc_Int32 (bytes_slice d (Z.of_nat lo) (Z.of_nat hi))).
+Proof. intros. unfold rd_i32. rewrite slice_tr by lia. cbn [bind]. apply get_i32_tr. rewrite bytes_slice_length; lia. Qed.
+
+(** [copy(a[:], src)] with [len src = len a] overwrites all of [a] *)
+Lemma list_splice_all src b : length src = length b -> list_splice 0 src b = src.
+Proof.
+  revert src. induction b as [| h t IH]; intros [| x src] H; cbn in *; try discriminate; [reflexivity |].
+  f_equal. apply IH. now injection H.
+Qed.
+Lemma bytes_copy_all a n src : length a = n -> length src = n -> bytes_copy_at a 0 (Z.of_nat n) src = src.
+Proof.
+  intros Ha Hs. unfold bytes_copy_at, bytes_splice. rewrite Nat2Z.id. cbn [Z.to_nat]. rewrite Nat.sub_0_r.
+  rewrite firstn_all2 by lia. apply list_splice_all. lia.
+Qed.
+
+(** result of an unmarshalBinary method on receiver [r0]: (new receiver, error) *)
+Definition un_res {A B : Type} (conv : A -> B) (r0 : B) (o : outcome A) : option (B * err) :=
+  match o with
+  | Ok x => Some (conv x, err_nil)
+  | Error => Some (r0, err_nonnil)
+  | OutOfBounds => None
+  end.
+
+Definition ifi_of (x : ifinfomsg) : Translated.ifInfoMsg :=
+  {| Translated.ifInfoMsg_IfInfomsg :=
+       {| Translated.IfInfomsg_Family := ifi_family x; Translated.IfInfomsg_Type := ifi_type x;
+          Translated.IfInfomsg_Index := ifi_index x; Translated.IfInfomsg_Flags := ifi_flags x;
+          Translated.IfInfomsg_Change := ifi_change x |} |}.
+Definition bt_of (x : bittiming) : Translated.BitTiming :=
+  {| Translated.BitTiming_CANBitTiming :=
+       {| Translated.CANBitTiming_Bitrate := bt_bitrate x; Translated.CANBitTiming_Sample_point := bt_sample_point x;
+          Translated.CANBitTiming_Tq := bt_tq x; Translated.CANBitTiming_Prop_seg := bt_prop_seg x;
+          Translated.CANBitTiming_Phase_seg1 := bt_phase_seg1 x; Translated.CANBitTiming_Phase_seg2 := bt_phase_seg2 x;
+          Translated.CANBitTiming_Sjw := bt_sjw x; Translated.CANBitTiming_Brp := bt_brp x |} |}.
+Definition btc_of (x : bittiming_const) : Translated.BitTimingConst :=
+  {| Translated.BitTimingConst_CANBitTimingConst :=
+       {| Translated.CANBitTimingConst_Name := btc_name x;
+          Translated.CANBitTimingConst_Tseg1_min := btc_tseg1_min x; Translated.CANBitTimingConst_Tseg1_max := btc_tseg1_max x;
+          Translated.CANBitTimingConst_Tseg2_min := btc_tseg2_min x; Translated.CANBitTimingConst_Tseg2_max := btc_tseg2_max x;
+          Translated.CANBitTimingConst_Sjw_max := btc_sjw_max x; Translated.CANBitTimingConst_Brp_min := btc_brp_min x;
+          Translated.CANBitTimingConst_Brp_max := btc_brp_max x; Translated.CANBitTimingConst_Brp_inc := btc_brp_inc x |} |}.
+Definition clk_of (x : clock) : Translated.Clock :=
+  {| Translated.Clock_CANClock := {| Translated.CANClock_Freq := clk_freq x |} |}.
+Definition cm_of (x : ctrlmode) : Translated.CtrlMode :=
+  {| Translated.CtrlMode_CANCtrlMode := {| Translated.CANCtrlMode_Mask := cm_mask x; Translated.CANCtrlMode_Flags := cm_flags x |} |}.
+Definition bec_of (x : berr_counters) : Translated.BusErrorCounters :=
+  {| Translated.BusErrorCounters_CANBusErrorCounters :=
+       {| Translated.CANBusErrorCounters_Txerr := bec_txerr x; Translated.CANBusErrorCounters_Rxerr := bec_rxerr x |} |}.
+Definition st_of (x : stats) : Translated.Stats :=
+  {| Translated.Stats_CANDeviceStats :=
+       {| Translated.CANDeviceStats_Bus_error := st_bus_error x; Translated.CANDeviceStats_Error_warning := st_error_warning x;
+          Translated.CANDeviceStats_Error_passive := st_error_passive x; Translated.CANDeviceStats_Bus_off := st_bus_off x;
+          Translated.CANDeviceStats_Arbitration_lost := st_arbitration_lost x; Translated.CANDeviceStats_Restarts := st_restarts x |} |}.
+
+(** [unmarshal n]: split on the length test; with [length data = n] every checked read of the model
+    succeeds and is the total read of the translation *)
+Ltac unmarshal n :=
+  rewrite (bytes_len_eqb _ n) by lia;
+  let k := eval compute in (Z.to_nat n) in
+  change (Z.to_nat n) with k;
+  match goal with |- context [Nat.eqb (length ?d) k] =>
+    let E := fresh "E" in
+    destruct (Nat.eqb (length d) k) eqn:E; [| reflexivity];
+    apply Nat.eqb_eq in E; cbn [negb];
+    rewrite ?rd_u8_tr, ?rd_u16_tr, ?rd_u32_tr, ?rd_i32_tr, ?slice_tr, ?get_u32_tr by (try rewrite E; lia);
+    (* call by value: each [let v := set_f v x in ...] is evaluated before it is substituted *)
+    cbv -[Z.add Z.mul Z.sub Z.ltb Z.pow Z.land Z.shiftr Z.modulo
+          nlenc_Uint8 nlenc_Uint16 nlenc_Uint32 nlenc_Int32 bytes_slice bytes_copy_at]
+  end.
+
+Lemma T_ifInfoMsg_marshalBinary_eq x : Ok (Translated.ifInfoMsg_marshalBinary (ifi_of x)) = marshal_ifinfomsg x.
+Proof. reflexivity. Qed.
+
+Lemma T_ifInfoMsg_unmarshalBinary_eq r0 data :
+  Some (Translated.ifInfoMsg_unmarshalBinary r0 data) = un_res ifi_of r0 (unmarshal_ifinfomsg data).
+Proof.
+  destruct r0 as [[? ? ? ? ?]]. unfold Translated.ifInfoMsg_unmarshalBinary, unmarshal_ifinfomsg, sizeof_ifinfomsg.
+  unmarshal 16. reflexivity.
+Qed.
+
+Lemma T_BitTiming_marshalBinary_eq x : Ok (Translated.BitTiming_marshalBinary (bt_of x)) = marshal_bittiming x.
+Proof. reflexivity. Qed.
+
+Lemma T_BitTiming_unmarshalBinary_eq r0 data :
+  Some (Translated.BitTiming_unmarshalBinary r0 data) = un_res bt_of r0 (unmarshal_bittiming data).
+Proof.
+  destruct r0 as [[? ? ? ? ? ? ? ?]]. unfold Translated.BitTiming_unmarshalBinary, unmarshal_bittiming, sizeof_bittiming.
+  unmarshal 32. reflexivity.
+Qed.
+
+(** Name is a [16]uint8 array: [copy(btc.Name[:], data[0:16])] overwrites all of it *)
+Definition btc_name_ok (r0 : Translated.BitTimingConst) : Prop :=
+  length (Translated.CANBitTimingConst_Name (Translated.BitTimingConst_CANBitTimingConst r0)) = 16%nat.
+Lemma T_BitTimingConst_unmarshalBinary_eq r0 data : btc_name_ok r0 ->
+  Some (Translated.BitTimingConst_unmarshalBinary r0 data) = un_res btc_of r0 (unmarshal_bittiming_const data).
+Proof.
+  destruct r0 as [[nm ? ? ? ? ? ? ? ?]].
+  unfold btc_name_ok. cbn [Translated.CANBitTimingConst_Name Translated.BitTimingConst_CANBitTimingConst].
+  intros Hn.
+  unfold Translated.BitTimingConst_unmarshalBinary, unmarshal_bittiming_const, sizeof_bittiming_const.
+  unmarshal 48.
+  rewrite (bytes_copy_all nm 16 _ Hn) by (apply (bytes_slice_length data 0 16); lia).
+  reflexivity.
+Qed.
+
+Lemma T_Clock_unmarshalBinary_eq r0 data :
+  Some (Translated.Clock_unmarshalBinary r0 data) = un_res clk_of r0 (unmarshal_clock data).
+Proof.
+  destruct r0 as [[?]]. unfold Translated.Clock_unmarshalBinary, unmarshal_clock, sizeof_clock.
+  unmarshal 4. reflexivity.
+Qed.
+
+Lemma T_CtrlMode_marshalBinary_eq x : Ok (Translated.CtrlMode_marshalBinary (cm_of x)) = marshal_ctrlmode x.
+Proof. reflexivity. Qed.
+
+Lemma T_CtrlMode_unmarshalBinary_eq r0 data :
+  Some (Translated.CtrlMode_unmarshalBinary r0 data) = un_res cm_of r0 (unmarshal_ctrlmode data).
+Proof.
+  destruct r0 as [[? ?]]. unfold Translated.CtrlMode_unmarshalBinary, unmarshal_ctrlmode, sizeof_ctrlmode.
+  unmarshal 8. reflexivity.
+Qed.
+
+Lemma T_BusErrorCounters_unmarshalBinary_eq r0 data :
+  Some (Translated.BusErrorCounters_unmarshalBinary r0 data) = un_res bec_of r0 (unmarshal_berr_counters data).
+Proof.
+  destruct r0 as [[? ?]]. unfold Translated.BusErrorCounters_unmarshalBinary, unmarshal_berr_counters, sizeof_berr_counters.
+  unmarshal 4. reflexivity.
+Qed.
+
+Lemma T_Stats_unmarshalBinary_eq r0 data :
+  Some (Translated.Stats_unmarshalBinary r0 data) = un_res st_of r0 (unmarshal_stats data).
+Proof.
+  destruct r0 as [[? ? ? ? ? ?]]. unfold Translated.Stats_unmarshalBinary, unmarshal_stats, sizeof_stats.
+  unmarshal 24. reflexivity.
+Qed.
+End NL.
+(** the lemma names unqualified (the names of Netlink/Layout.v stay local to the module) *)
+Import NL.
+
+(* @group scan *)
+(** ** pkg/socketcan/receiver.go scanFrames, the bufio.SplitFunc  (model: Socketcan/Receiver.v).
+       Three results (advance, token, error) = a triple.  GoSem.v identifies the nil slice with the
+       empty one; [scan_frames_token_nonempty] shows that this loses nothing here: a token, when
+       there is one, has 16 bytes. *)
+From CanVerif Require Socketcan.Wire Socketcan.Receiver.
+
+Definition tok_of (o : option (list Z)) : go_bytes := match o with None => bytes_nil | Some t => t end.
+Definition err_of {E : Type} (o : option E) : err := match o with None => err_nil | Some _ => err_nonnil end.
+
+Lemma T_scanFrames_eq data atEOF :
+  Translated.scanFrames data atEOF
+  = let '(adv, tok, e) := Receiver.scan_frames data atEOF in (adv, tok_of tok, err_of e).
+Proof.
+  unfold Translated.scanFrames, Receiver.scan_frames, bytes_len.
+  change Wire.lengthOfFrame with 16.
+  destruct (Z.of_nat (length data) <? 16); reflexivity.
+Qed.
+
+Lemma scan_frames_token_nonempty data atEOF t :
+  snd (fst (Receiver.scan_frames data atEOF)) = Some t -> length t = 16%nat.
+Proof.
+  unfold Receiver.scan_frames. change Wire.lengthOfFrame with 16.
+  destruct (Z.ltb_spec (Z.of_nat (length data)) 16) as [H | H]; cbn [fst snd]; [discriminate |].
+  intros E. assert (Et : t = firstn 16 data) by congruence. rewrite Et, firstn_length. lia.
+Qed.
